@@ -16,7 +16,7 @@ from .. import mdl as M, netcheck as N, extract_tables
 PID = "C18"
 
 
-def gen_case(rng, tier, n_params=None):
+def gen_case(rng, tier, n_params=None, chain=False, inexact=False):
     n = n_params or rng.randint(1, 25)
     names = [f"q{i}" for i in range(n)]
     if rng.random() < 0.5:
@@ -49,7 +49,34 @@ def gen_case(rng, tier, n_params=None):
     mdl = {"ops": {"O": {"name": "aop", "eqs": eqs, "vars": vars_}}, "node_templates": {"N": {"name": "n", "ops": ["O"]}},
            "circuit": {"name": "net", "nodes": {"p": "N"}, "edges": []}}
     pts = [{f"p/aop/{s}": C.q2s(F(rng.randint(-3, 3), rng.choice([1, 2]))) for s in states} for _ in range(2)]
-    return {"mdl": mdl, "decl_params": decl_order, "states": states, "points": pts, "pis": [{}, {}], "jac": rng.random() < 0.6, "scenario": rng.choice(["ivp", "eq", "lc"])}
+    case = {"mdl": mdl, "decl_params": decl_order, "states": states, "points": pts, "pis": [{}, {}], "jac": rng.random() < 0.6, "scenario": rng.choice(["ivp", "eq", "lc"])}
+    if chain:
+        # a second operator on the same node reads the first operator's output; its parameters are declared in an order that differs from their first use
+        m = rng.randint(2, 5)
+        names2 = [f"k{i}" for i in range(m)]
+        decl2 = list(names2); rng.shuffle(decl2)
+        use2 = list(reversed(decl2)) if rng.random() < 0.7 else rng.sample(names2, m)
+        rhs = M.mul(M.num(F(-1, 2)), M.var("u2"))
+        for q in use2:
+            rhs = M.add(rhs, M.mul(M.var(q), M.var(states[0]) if rng.random() < 0.6 else M.var("u2")))
+        v2 = {"u2": {"decl": "output", "value": str(F(rng.randint(-3, 3), 2))}, states[0]: {"decl": "input", "value": "0"}}
+        items2 = [(q, {"decl": "const", "value": str(F(rng.randint(1, 6), rng.choice([1, 2, 4])))}) for q in decl2]
+        v2 = dict(list(v2.items()) + items2) if rng.random() < 0.5 else dict(items2[:1] + list(v2.items()) + items2[1:])
+        mdl["ops"]["O2"] = {"name": "bop", "eqs": [{"lhs": "u2", "de": True, "rhs": rhs}], "vars": v2}
+        mdl["node_templates"]["N"]["ops"] = ["O", "O2"]
+        case["decl_params"] = decl_order + decl2
+        case["states2"] = ["u2"]
+        for pt in pts:
+            pt["p/bop/u2"] = C.q2s(F(rng.randint(-3, 3), rng.choice([1, 2])))
+    if inexact:
+        # values that have no short decimal representation: STPNT has to carry them to full double precision
+        pool_v = [F(1, 3), F(2, 7), F(1, 2 ** 40), F(3, 10 ** 14), F(10 ** 15 + 1, 2), F(-1, 3), F(123456789, 1000000007), F(1, 2 ** 60)]
+        for opid in mdl["ops"]:
+            for k, d in mdl["ops"][opid]["vars"].items():
+                if d["decl"] in ("const", "output", "var") and rng.random() < 0.6:
+                    d["value"] = str(rng.choice(pool_v))
+        case["inexact"] = True
+    return case
 
 
 def impl_export(case):
@@ -130,8 +157,10 @@ def deviations(case, res, slots, tables):
     bad = []
     decl = case["decl_params"]
     n = len(decl)
-    op = case["mdl"]["ops"]["O"]
-    val = {k: F(d["value"]) for k, d in op["vars"].items()}
+    opsd = case["mdl"]["ops"]
+    op = {"eqs": [e for o in opsd.values() for e in o["eqs"]]}
+    # the values PyRates was given are the float64 nearest to the declared rationals
+    val = {k: F(float(F(d["value"]))) for o in opsd.values() for k, d in o["vars"].items() if d["decl"] != "input"}
     exp_par = {s: nm for s, nm in zip(slots, decl)}
     if P["parnames"] != exp_par:
         bad.append(("parnames-not-declaration-order-on-model-slots", {"got": P["parnames"], "expected": exp_par}))
@@ -158,8 +187,8 @@ def deviations(case, res, slots, tables):
             if P["parnames"].get(s) != nm:
                 bad.append(("call-forwards-wrong-slot", {"signature_param": nm, "forwarded_slot": s, "slot_holds": P["parnames"].get(s)}))
     # states
-    exp_un = {i + 1: s for i, s in enumerate(case["states"])}
-    if set(P["unames"].values()) != set(case["states"]) or P["NDIM"] != len(case["states"]):
+    all_states = case["states"] + case.get("states2", [])
+    if set(P["unames"].values()) != set(all_states) or P["NDIM"] != len(all_states):
         bad.append(("unames/NDIM", {"unames": P["unames"], "NDIM": P["NDIM"]}))
     for i, nm in P["unames"].items():
         if i not in P["stpnt_y"] or P["stpnt_y"][i][1] != nm or F(fval(P["stpnt_y"][i][0])) != val.get(nm):
@@ -185,7 +214,7 @@ def check(tier, seed, replay=None):
     proof_ok, detail = C.prepare_lean(rep)
     tables, _ = extract_tables.extract(C.REPO)
     rep.cov["rule"] = ("scalar one-node models with n = 1..25 parameters (n = 9, 10, 11, 14, 15 always included), random parameter names, declaration order != order of first use, 1-3 state "
-                       "variables, states interleaved with parameters in the declaration, scenarios ivp/eq/lc, with and without auto_jac; exported with the fortran backend (f2py + "
+                       "variables, states interleaved with parameters in the declaration, scenarios ivp/eq/lc, with and without auto_jac; two-operator nodes (the second operator reads the first one's output, declares its parameters in another order than it uses them); parameter/initial values without a short decimal form (1/3, 2^-40, 3e-14, ...); exported with the fortran backend (f2py + "
                        "gfortran) and parsed.  distinct = distinct cases; non-trivial = more than 9 parameters (crosses the reserved range)")
     if replay:
         cases = [json.load(open(replay))["case"]]
@@ -193,6 +222,8 @@ def check(tier, seed, replay=None):
         cases = [json.load(open(f))["case"] for f in sorted(glob.glob(os.path.join(C.VERIF, "corpus", PID, "*.json")))]
         fixed = [9, 10, 11, 14, 15, 1]
         cases += [gen_case(rng, tier, n) for n in fixed] + [gen_case(rng, tier) for _ in range(10 if tier == "quick" else 80)]
+        cases += [gen_case(rng, tier, rng.choice([3, 8, 10]), chain=True) for _ in range(4 if tier == "quick" else 30)]
+        cases += [gen_case(rng, tier, rng.choice([2, 5, 11]), chain=rng.random() < 0.3, inexact=True) for _ in range(4 if tier == "quick" else 30)]
     impl = C.run_forked(impl_export, cases, timeout=600, workers=8)
     drv = C.Driver()
     bad, corr_bad = [], []
@@ -201,11 +232,13 @@ def check(tier, seed, replay=None):
         if "crash" in im:
             raise C.HarnessError("harness child crashed: " + str(im)[:800])
         n = len(case["decl_params"])
-        rep.count(f"export-{case['scenario']}" + ("-jac" if case["jac"] else ""), json.dumps(case, sort_keys=True), nontrivial=n > 9)
+        rep.count(f"export-{case['scenario']}" + ("-jac" if case["jac"] else "") + ("-chain" if case.get("states2") else "") + ("-inexact" if case.get("inexact") else ""), json.dumps(case, sort_keys=True), nontrivial=n > 9)
         slots = drv.ask({"comp": "auto", "lo": lo, "hi": hi, "n": n})["slots"]
         dev = deviations(case, im, slots, tables)
         # vector field
-        if "dy" in im:
+        if "dy" in im and case.get("inexact"):
+            pass      # values without an exact product/sum in float64: only the texts and STPNT are compared for these cases
+        elif "dy" in im:
             orc = N.oracle_case(case)
             if im["dy"] != orc["dy"]:
                 dev.append(("exported-vector-field-differs", {"got": im["dy"], "expected": orc["dy"]}))
